@@ -851,6 +851,11 @@ fn positioned_one(c: &mut Ctx, frames: &[Vec<u8>], stamps: &[f64], reference: Op
                     bad.push(format!("{k}: {} in the frame, {} in the record", val, y.get(k).cloned().unwrap_or(Value::Null)));
                 }
             }
+            for (k, val) in y {
+                if k != "latitude" && k != "longitude" && !x.contains_key(k) {
+                    bad.push(format!("{k}: absent from the frame, {} in the record", val));
+                }
+            }
         }
         if bad.is_empty() {
             c.r.class("positioned:fields-unchanged");
